@@ -1,10 +1,11 @@
 """C09 -- negation, NNF, DNF, bound-variable renaming and the simplifying and/or combinators preserve meaning."""
 from vlib import rt, gen, fml
 from vlib.gen import chance, pick
+from vlib.runner import reraise_if_timeout
 from props import c03_evaluate as c03
 
 ID = "C09"
-CASES = {"quick": 3000, "thorough": 120000}
+CASES = {"quick": 800, "thorough": 60000}
 SOFT = 60
 HARD = 300
 RULE = ("case = (grammar, closed tree, two constraints f and g from the C03 generator, flag 'nary'); the ISLa formula "
@@ -142,6 +143,7 @@ def judge(case):
         F = L.parse_isla(fml.pr(f), g, SP, MP)
         G = L.parse_isla(fml.pr(g2), g, SP, MP)
     except Exception as e:
+        reraise_if_timeout(e)
         return {"labels": ["parse_rejected"], "nontrivial": False, "violations": [], "inconclusive": "parse_rejected",
                 "sample": {"f": fml.pr(f), "error": type(e).__name__ + ": " + str(e)[:200]}}
     if case.get("nary"):
@@ -165,6 +167,7 @@ def judge(case):
     try:
         bf, bg = ev(F), ev(G)
     except Exception as e:
+        reraise_if_timeout(e)
         return {"labels": labels + ["base_raises"], "nontrivial": False, "violations": [], "inconclusive": "base_raises:" + type(e).__name__}
     if bf is None or bg is None:
         return {"labels": labels + ["base_unknown"], "nontrivial": False, "violations": [], "inconclusive": "base_unknown"}
@@ -176,18 +179,21 @@ def judge(case):
         try:
             X = build()
         except Exception as e:
+            reraise_if_timeout(e)
             viol.append({"sig": "%s:raises:%s" % (name, type(e).__name__), "detail": str(e)[:300], "f": fml.pr(f)})
             return
         if post is not None:
             try:
                 ok = post(X)
             except Exception as e:
+                reraise_if_timeout(e)
                 ok = "post-condition raised %s" % type(e).__name__
             if ok is not True:
                 viol.append({"sig": "%s:postcondition" % name, "f": fml.pr(f), "result": str(X)[:400], "detail": str(ok)})
         try:
             got = ev(X)
         except Exception as e:
+            reraise_if_timeout(e)
             viol.append({"sig": "%s:evaluate_raises:%s" % (name, type(e).__name__), "detail": str(e)[:300], "f": fml.pr(f),
                          "result": str(X)[:400]})
             return
